@@ -301,8 +301,11 @@ impl Slots {
                             // their space in return (Acquire on that load above).
                             verif_step!(HELP_CAS_OK);
                             self.space_offer.store(their_space, SeqCst);
-                            // The ref count went with it, so forget about it here.
-                            T::into_ptr(replacement);
+                            // The ref count went with it, so forget about it here. Really just
+                            // forget: the raw pointer is in the envelope already and the reader
+                            // may have used and released the value by now, so converting it again
+                            // (Arc::into_raw) could do pointer arithmetic on a freed allocation.
+                            core::mem::forget(replacement);
                             // We have successfully helped out, so we are done.
                             break;
                         }
